@@ -540,6 +540,19 @@ class Spec:
         return info
 
     # ------------------------------------------------------------------ root arguments
+    def is_text_root(self, root):
+        return root.startswith('format::') or 'serialize' in root or '::parse::' in root or '::format::' in root or 'LazyFormat' in root
+
+    def no_table_fork(self, st):
+        """inside Date::day_of_week reached from text code the per-weekday case split is merged again at the return
+        (merge_limit 1): do not make it in the first place"""
+        if not st.stack or not self.is_text_root(st.stack[0][1]):
+            return False
+        for _, k in st.stack:
+            if k == 'date::Date::day_of_week':
+                return True
+        return False
+
     def merge_limit(self, key, st=None):
         if st is not None and st.stack and st.stack[0][1] == self.LEXER:
             return 10 ** 9
